@@ -10,6 +10,7 @@ mod c18;
 mod c16;
 mod c19;
 mod c10;
+mod c14;
 
 use common::Case;
 use std::fs;
@@ -23,6 +24,7 @@ fn header(prop: &str) -> &'static str {
         "C16" => "From TSG Require Import Model.Globals.\n",
         "C19" => "From TSG Require Import Model.Cli.\n",
         "C10" | "C10rx" => "From TSG Require Import Model.ScanOps.\n",
+        "C14" => "From TSG Require Import Model.C14Obs.\n",
         _ => "",
     }
 }
@@ -69,6 +71,7 @@ fn main() {
                 "C19" => c19::gen(&mut rng, n),
                 "C10" => c10::gen(&mut rng, n),
                 "C10rx" => c10::gen_rx_stream(&mut rng, n),
+                "C14" => c14::gen(&mut rng, n),
                 _ => { eprintln!("unknown property {}", prop); std::process::exit(2) }
             };
             write_cases(&prop, &cases, shards, &out);
@@ -85,6 +88,7 @@ fn main() {
                 "C19" => c19::replay(&j["case"]),
                 "C10" => c10::replay(&j["case"]),
                 "C10rx" => c10::replay_rx(&j["case"]),
+                "C14" => c14::replay(&j["case"]),
                 _ => { eprintln!("unknown property {}", prop); std::process::exit(2) }
             };
             write_cases(&prop, &[case], 1, &out);
